@@ -252,6 +252,37 @@ def checkEvAll (σ : Store) (μ : Val) (l : Level) : List Core → W → W
 end
 
 mutual
+/-- effects of `Core.Sync()`: every wrapper relays it (tee to every branch, in order; `lazyWithCore.Sync` initialises the
+    core first), every ioCore syncs its sink, observers and the nop core do nothing. -/
+def syncEv (μ : Val) : Core → W → W
+  | .leaf id _ io _, w => if io then w.emit [.sync id] else w
+  | .nop, w => w
+  | .tee cs, w => syncEvAll μ cs w
+  | .incr c _, w => syncEv μ c w
+  | .hooked c _, w => syncEv μ c w
+  | .sampler c _ _, w => syncEv μ c w
+  | .lazy cell c pfs, w => syncEv μ c (forceCell μ cell c pfs w)
+def syncEvAll (μ : Val) : List Core → W → W
+  | [], w => w
+  | c :: cs, w => syncEvAll μ cs (syncEv μ c w)
+end
+
+mutual
+/-- the io leaves of a core, in tree order -/
+def ioLeaves : Core → List Nat
+  | .leaf id _ io _ => if io then [id] else []
+  | .nop => []
+  | .tee cs => ioLeavesAll cs
+  | .incr c _ => ioLeaves c
+  | .hooked c _ => ioLeaves c
+  | .sampler c _ _ => ioLeaves c
+  | .lazy _ c _ => ioLeaves c
+def ioLeavesAll : List Core → List Nat
+  | [] => []
+  | c :: cs => ioLeaves c ++ ioLeavesAll cs
+end
+
+mutual
 /-- the core returned by `c.With(fs)` (pure part; read after `withEv` forced the cells) -/
 def pushF (sn : Snap) : Core → List FldP → Core
   | .leaf id en io ctx, fs => .leaf id en io (ctx ++ fs.map (·.pick io))
